@@ -113,7 +113,9 @@ class Monitor:
     def on_store(self):
         dae = self.ss.dae
         tds = self.ss.TDS
-        rec = dict(t=float(dae.t), h=float(tds.h), niter=int(tds.niter))
+        # chatter: the step was accepted by ANDES' chattering rule (increment still oscillating above 1e-4), not by the
+        # tolerance test
+        rec = dict(t=float(dae.t), h=float(tds.h), niter=int(tds.niter), chatter=bool(getattr(tds, 'chatter', False)))
         if self.keep:
             rec['x'] = dae.x.copy()
             rec['y'] = dae.y.copy()
